@@ -272,7 +272,11 @@ def gen_C12(w, tier):
         return (P[0] * z % Q, P[1] * z % Q, z, P[0] * P[1] * z % Q)
 
     def aff(out_):
+        if not out_.startswith("ok"):
+            return None, False
         X, Y, Z, T = (int(t) for t in out_.split()[1:5])
+        if Z % Q == 0:
+            return None, False        # not a representation of any point
         zi = refmath.modinv(Z, Q)
         return (X * zi % Q, Y * zi % Q), (X * Y - T * Z) % Q == 0 and Z % Q != 0
 
@@ -996,6 +1000,34 @@ def gen_C18(w, tier):
         return None
     sc3.pred = pred3
     out.append(sc3)
+    # the shipped constants are still the published ones after OTHER groups over the same (p, q) have been built
+    # (another generator of the same subgroup, then the same numbers again): group objects must not be shared or rebound
+    sc4 = w.scenario("C18/constants-after-custom-groups", ("constants", "custom-groups"))
+    gid = w.next_gid + 400
+    snaps = []
+
+    def snap(ps):
+        return (sc4.do("g.sizes %d" % ps.gid), sc4.do("e.base %d %d" % (w.eid(), ps.gid)), sc4.do("e.zero %d %d" % (w.eid(), ps.gid)),
+                sc4.do("p.mns %d" % ps.pid), sc4.do("e.arb %d %d %s" % (w.eid(), ps.gid, hx(b"M"))))
+    for name in ("1024", "2048", "3072"):
+        ps = w.ps[name]
+        g = w.im.groups[ps.gid]
+        p_, q_, gen = g.p, g.q, g.Base._e
+        before = snap(ps)
+        for g2 in (pow(gen, 2, p_), gen, pow(gen, q_ - 1, p_)):
+            sc4.do("group %d int %d %d %d" % (gid, p_, q_, g2))
+            sc4.do("e.base %d %d" % (w.eid(), gid))
+            gid += 1
+            snaps.append((name, before, snap(ps)))
+    sc4.meta["snaps"] = snaps
+
+    def pred4(io, sc):
+        for (name, a, b) in sc.meta["snaps"]:
+            if a != b:
+                return "%s: constants of the shipped group / parameter objects changed after other groups over the same (p, q) were constructed" % name
+        return None
+    sc4.pred = pred4
+    out.append(sc4)
     return out
 
 
